@@ -222,3 +222,18 @@ Theorem C08_tmpcap_prune_finding :
   existsb (streqb (bs "multi-prefix")) r2 = negb tmp_prune_aware.
 Proof. exact C08_tmpcap_prune_finding_proof. Qed.
 Print Assumptions C08_tmpcap_prune_finding.
+
+(* Completeness over the whole listing (the clause seeded/C08-4 breaks): at the final line of
+   an LS/NEW listing, every name on offer — listed on ANY line of the listing since the last
+   concluded round and not withdrawn by a DEL — that the client supports whatever the STS
+   failure clock says (possible_caps cfg true, the smallest possibleCapList can be) is in the
+   single CAP REQ that answers the line.  Hence CAP END at a final line (C08_concludes) means
+   that nothing on offer is supported.  Any history, no aliveness hypothesis needed. *)
+Theorem C08_req_complete_listing : forall cfg s0 h i name,
+  ord_complete (in_ord i) ->
+  is_final_ls (in_params i) = true ->
+  In name (offered (h ++ [i])) ->
+  amem name (possible_caps cfg true) = true ->
+  exists names, snd (cap_step cfg (cap_after cfg (cap_init s0) h) i) = [out_REQ names] /\ In name names.
+Proof. exact C08_req_complete_listing_proof. Qed.
+Print Assumptions C08_req_complete_listing.
